@@ -7,9 +7,7 @@ V = os.path.dirname(os.path.dirname(os.path.abspath(__file__)))
 
 NA = {
     "C03": "sample-exact equality with an independent encoder is a value-level statement over all sample values and tree shapes; no clause of it is visible in the shape of the code",
-    "C04": "round-trip equality over all codes and sequences is value-level; its one structural fact (ANS state mask vs table size) is a memory-safety obligation checked under C02",
     "C12": "agreement of two numeric pipelines (and SIMD vs scalar) over all samples; no structural necessary condition a realistic regression would break",
-    "C19": "numerical tolerance statements over real-valued functions",
 }
 
 CHECKS = {
@@ -113,6 +111,23 @@ CHECKS = {
              "Does not decide any numerical property of the kernels.",
         note="kernel families are recognised by name after stripping the architecture suffix",
         ref="DESIGN.md section 3 C16"),
+    "C04": dict(
+        technique="comparison of rustc-evaluated constant tables with references transcribed from the standards; validation-check reconstruction from MIR against a reviewed table; constant-agreement rule on the LZ77 window",
+        text="Claimed narrowly: three structural necessary conditions. The tables the entropy decoder takes from the format (LZ77 special "
+             "distances, code-length order) have the specified values; the acceptance checks the property names (ANS final state 0x130000, "
+             "complete prefix codes, distribution sums, cluster map holes, Lehmer digits) exist as compare->error; the LZ77 window "
+             "constants agree between writer index, reader index and distance clamp. Does not decide that decoding returns the encoded "
+             "sequence or consumes exactly the encoded bits (value-level round trip).",
+        note="the ANS mask / table-size agreement is decided under C02 (R-UNSAFE-b); alias-table construction, prefix lookup tables and hybrid-integer expansion are not decided",
+        ref="DESIGN.md section 8.9"),
+    "C19": dict(
+        technique="comparison of rustc-evaluated colour constants and recognition tables with references transcribed from the cited standards or derived by formula",
+        text="Claimed narrowly: the named colour constants. Chromaticities of the enumerated white points and primaries, the Bradford "
+             "matrix and its inverse, the HLG and PQ constants equal the values of the cited standards, and the ICC parser's recognition "
+             "tables map the same chromaticities to the same enum values the synthesiser writes. Does not decide anything numerical about "
+             "the round trip or the transfer curves (tolerances, monotonicity, custom chromaticities, arbitrary gamma).",
+        note="the rational approximations of the PQ / sRGB curves are snapshot-guarded only (stated in evidence)",
+        ref="DESIGN.md section 8.9"),
     "C17": dict(
         technique="interval abstract interpretation of reconstruction-header fields to panicking operations; validation-check reconstruction from MIR against a reviewed table; per-variant constant-propagating path rules for the status query",
         text="Claimed narrowly: the two clauses visible in the shape of the code. (1) jpeg_reconstruction_status reports Available only on the "
